@@ -32,6 +32,7 @@ func (s stepW2) payload() []byte { return s.recipe().Expand() }
 type caseC08 struct {
 	Cfg   gen.Cfg  `json:"cfg"`
 	Steps []stepW2 `json:"steps"`
+	Via   string   `json:"via,omitempty"` // how write steps hand their payload over, see viaWrite
 }
 
 func drawC08(t *rapid.T) caseC08 {
@@ -175,6 +176,7 @@ func drawC08(t *rapid.T) caseC08 {
 			}
 		}
 	}
+	c.Via = rapid.SampledFrom(viaKinds).Draw(t, "via")
 	if rapid.IntRange(0, 11).Draw(t, "oddcfg") == 0 {
 		gen.DrawOdd(t, &c.Cfg, "lzma2")
 	}
@@ -215,7 +217,7 @@ func runW2(c caseC08, obs w2Observer) *ev.Failure {
 		switch st.Op {
 		case "write":
 			p = st.payload()
-			n, err = w.Write(p)
+			n, err = viaWrite(w, p, c.Via)
 		case "write0":
 			n, err = w.Write(nil)
 		case "flush":
@@ -338,7 +340,7 @@ func checkC08(c caseC08, rec *ev.Rec) *ev.Failure {
 	if f != nil {
 		return f
 	}
-	rec.Class("matcher=" + m)
+	rec.Class("matcher="+m, "write_via="+c.Via, "lzma.Writer2_optional_interfaces="+optionalIfaces((*lzma.Writer2)(nil)))
 	if rawSeen > 0 {
 		rec.Class("raw_chunk")
 	}
